@@ -384,6 +384,10 @@ func c11Teletex(chk *fw.Check) (evals int) {
 	}
 	pairs := []pair{
 		{"the names differ in characters whose code points share the low byte", caS, caA, 5, 5},
+		{"the names differ in characters whose UTF-8 encodings share the lead byte and differ in the continuation byte",
+			ca(94, 6, &pkix.Name{CommonName: "M\u00fcller Issuing CA", Organization: []string{"verif"}}, nil), ca(95, 7, &pkix.Name{CommonName: "M\u00f6ller Issuing CA", Organization: []string{"verif"}}, nil), 5, 5},
+		{"the names differ in characters whose UTF-8 encodings share the continuation byte and differ in the lead byte",
+			ca(96, 6, &pkix.Name{CommonName: "\u00c0lpha CA", Organization: []string{"verif"}}, nil), ca(97, 7, &pkix.Name{CommonName: "\u0100lpha CA", Organization: []string{"verif"}}, nil), 5, 5},
 		// where the name ends and the serial number begins: "... 1" + 23 against "... 12" + 3 (and the other way round),
 		// with the digits in the attribute which is rendered last (the organisation) and in a name of one attribute
 		{"the other issuer's name is this one's plus a digit, its serial number lacks that digit",
